@@ -350,7 +350,8 @@ def main(tier):
         run.merge(p)
     run.cov["rule"] = ("histories of add/replace/cancel requests (own connection each, random chunking) for 1..12 tasks with secondly to "
                        "daily rules, COUNT/UNTIL, RDATE duplicates sharing a second, DTSTART in the past and before 2001; clock "
-                       "advances with stalls and late wake-ups; children with lifetimes from instant to never, exits interleaved "
+                       "advances with stalls, late wake-ups and (one history in eight) forward steps of the wall clock against the monotonic one, "
+                       "after which lateness is not judged; finite tasks armed 255..1024 times; children with lifetimes from instant to never, exits interleaved "
                        "with timers; checker: every spawn justified by an unserved occurrence >= load time, not early, at the first "
                        "loop iteration after it, late occurrences collapse into one run, everything due is served by the end, tasks "
                        "retire; distinct = per-task words over {Timer run, Exit} x incarnation counts (interleaving signatures)")
